@@ -22,7 +22,7 @@ RULE = ("one run = warm-up transfer, ONE disturbed transfer, drain, undisturbed 
         "end), outcome class); non-trivial = the disturbance actually fired (step < number of responses); "
         "distinct = distinct keys among those")
 EXHAUSTIVE_CORE = ("{expedited, segmented declared, segmented undeclared, block} x {download, upload} x 11 "
-                   "length classes on both sides of the framing boundaries x 17 step positions x 16 "
+                   "length classes on both sides of the framing boundaries (block kinds up to 1772 bytes = two full sub-blocks of 127 segments) x 17 step positions x 16 "
                    "disturbance kinds (drop, abort, toggle, wrong multiplexer, duplicate, late, stale before/"
                    "between/after, each other command specifier)")
 ASSUMPTIONS = [
@@ -45,8 +45,8 @@ KINDS = ("exp-dl", "exp-ul", "seg-dl", "seg-dl-undeclared", "seg-ul", "blk-dl", 
          "r-exp-dl", "r-exp-ul", "r-seg-dl", "r-seg-dl-undeclared", "r-seg-ul")
 LEN_EXP = (1, 2, 3, 4)
 LEN_SEG = (0, 1, 4, 5, 7, 8, 14, 15, 21, 27, 29)
-LEN_BLK = (1, 6, 7, 8, 13, 14, 15, 21, 22, 50, 896)
-NLEN = 11
+LEN_BLK = (1, 6, 7, 8, 13, 14, 15, 21, 22, 50, 896, 1772)
+NLEN = 12
 STEPS = tuple(range(13)) + ("last", "last-1", "last-2", "mid")
 FAULTS = ("drop", "abort", "toggle", "mux", "dup", "late", "stale-before", "stale-between", "stale-after",
           "cs0", "cs1", "cs2", "cs3", "cs4", "cs5", "cs6", "cs7")
